@@ -216,13 +216,16 @@ pub fn subset_prelude(rng: &mut Rng) -> Sub {
     let t_arr2 = f(); v.push(i(28, None, Some(t_arr2), vec![idr(t_f32), idr(c_2b)]));
     let c_v2 = f(); v.push(i(44, Some(t_v4), Some(c_v2), vec![idr(c_fb), idr(c_f), idr(c_n2), idr(c_fb)]));
     let c_a = f(); v.push(i(44, Some(t_arr2), Some(c_a), vec![idr(c_fb), idr(c_n2)]));
+    // the smallest struct and composite: no members, no constituents
+    let t_unit = f(); v.push(i(30, None, Some(t_unit), vec![]));
+    let c_unit = f(); v.push(i(44, Some(t_unit), Some(c_unit), vec![]));
     // a second OpTypeVoid and a function type returning u32: an OpFunction's own result type is what the function keeps
     let t_void2 = f(); v.push(i(19, None, Some(t_void2), vec![]));
     let t_fn_u = f(); v.push(i(33, None, Some(t_fn_u), vec![idr(t_u32)]));
     let next = n;
     Sub { insts: v, next, t_void, t_bool, t_u32, t_i32, t_f32, t_v4, t_fn, t_void2, t_fn_u, t_ptr, t_st, t_arr2, c_i, c_v, c_u, c_f,
-          consts: vec![c_u, c_i, c_f, c_t, c_fl, c_v, c_n, c_2, c_2b, c_fb, c_n2, c_n3, c_tb, c_v2, c_a],
-          types: vec![t_void, t_bool, t_u32, t_i32, t_f32, t_v4, t_m4, t_arr, t_st, t_ptr, t_fn, t_fn2, t_arr2, t_void2, t_fn_u] }
+          consts: vec![c_u, c_i, c_f, c_t, c_fl, c_v, c_n, c_2, c_2b, c_fb, c_n2, c_n3, c_tb, c_v2, c_a, c_unit],
+          types: vec![t_void, t_bool, t_u32, t_i32, t_f32, t_v4, t_m4, t_arr, t_st, t_ptr, t_fn, t_fn2, t_arr2, t_void2, t_fn_u, t_unit] }
 }
 
 pub fn subset_module(rng: &mut Rng, body_ops: &[SInst]) -> Vec<SInst> {
@@ -336,6 +339,8 @@ pub fn drive(args: &[String]) {
         if let Some(mut m) = load(&insts, *rng.pick(&[0x0001_0000u32, 0x0001_0300, 0x0001_0600])) {
             // "preserves the version word": whatever the word holds (the loader normalises it, so it is set on the module)
             if rng.chance(1, 3) { if let Some(h) = m.header.as_mut() { h.version = *rng.pick(&[0x0001_0301u32, 0x0101_0300, 0xffff_ffff, 0, 0x0000_00ff]); } }
+            // the id bound of the header is not part of the subset's definition (Builder::module_ref() leaves it 0)
+            if rng.chance(1, 3) { if let Some(h) = m.header.as_mut() { h.bound = *rng.pick(&[0u32, 1, 5, 0xffff_ffff]); } }
             out.ev(lift_event(&m, "subset", None));
         }
     }
@@ -357,6 +362,7 @@ pub fn drive(args: &[String]) {
             let npos = rest.iter().filter(|o| o.q != "ZeroOrMore").count() + rest.iter().filter(|o| o.q == "ZeroOrMore").count() * 2;
             let mut roles = vec![0usize; npos]; // 0 plain, 1 type, 2 constant
             let mut best: Option<Value> = None;
+            let mut extra: Option<Value> = None;
             'search: for attempt in 0..(1 + 2 * npos) {
                 let mut ops = vec![];
                 let mut pos = 0;
@@ -377,6 +383,14 @@ pub fn drive(args: &[String]) {
                 let insts = subset_module(&mut r2, &body);
                 if let Some(m) = load(&insts, 0x0001_0300) {
                     let ev = lift_event(&m, "probe", Some(op));
+                    if ev["st"] == "ok" {
+                        if body[0].ops.iter().any(|o| matches!(g.kinds.get(&o.k), Some(KindG::BitEnum { .. })) && o.w[0] != 0) {
+                            let mut b0 = body.clone();
+                            for o in b0[0].ops.iter_mut() { if matches!(g.kinds.get(&o.k), Some(KindG::BitEnum { .. })) { o.w[0] = 0; } }
+                            let mut r3 = Rng::new(op as u64);
+                            if let Some(m0) = load(&subset_module(&mut r3, &b0), 0x0001_0300) { extra = Some(lift_event(&m0, "probe", Some(op))); }
+                        }
+                    }
                     if ev["st"] == "ok" { best = Some(ev); break 'search; }
                     if best.is_none() { best = Some(ev); }
                 }
@@ -384,6 +398,7 @@ pub fn drive(args: &[String]) {
                 if attempt < 2 * npos { let p = attempt / 2; roles[p] = 1 + attempt % 2; if p > 0 && attempt % 2 == 0 { /* keep earlier choices */ } }
             }
             if let Some(ev) = best { out.ev(ev); }
+            if let Some(ev) = extra { out.ev(ev); }
         }
     }
     let events = out.finish();
